@@ -18,7 +18,8 @@ TECHNIQUE = 'exhaustive enumeration of report-option/environment configurations 
 LEVEL_TEXT = ('For every golden source and 8 generated programs, every configuration with at most 1 (quick) / 2 (thorough) deviations from the '
               'default over 34 report options plus carrier (argv, ASCMD, key file), working directory, -o path and LANG/LC_ALL is run on the rebuilt '
               'assembler; the code file must be byte-identical to the default run and the exit status equal; repeated runs must reproduce listing, '
-              'MAP and share files byte for byte apart from the date/time stamp.')
+              'MAP and share files byte for byte apart from the date/time stamp.'
+              ' One generated program executes 250 sequential INCLUDEs per pass.')
 LEVEL_NOTE = ('Trusted: the default-configuration run of the same binary as reference. -h/-SPLITBYTE only for sources without "\\{". '
               'Known finding listed in known_findings.txt for -SPLITBYTE with user FUNCTIONs if present.')
 RULE = 'configurations = subsets of size <=k of the deviation list; non-trivial = at least one deviation'
